@@ -204,6 +204,8 @@ func c16key(c *core.Ctx, r *core.Reporter) {
 	const equiv = "C16.equiv"
 	r.Rule(equiv, "every lookup, store or delete on a slip.HashTable uses a key that is a constant, a value of a type for which Go's == is the language's eql (fixnum, character, octet ...), or the result of a key-normalising call: the table is a Go map, so an arbitrary Object key is compared by Go identity and two eql bignums, ratios or long-floats (pointers), symbols that differ in case, or equalp strings are different keys", 3)
 	r.Rule(pres, "every lookup in a slip.HashTable uses the comma-ok form and the ok value is used: nil is a legal stored value, so a missing key must be told apart from a key bound to nil (equalp on tables, gethash)", 2)
+	hg := newHashGuards(c, lenflow.New(c).NoReturn)
+	r.Infof("C16.key: hashability predicates found by structure: %d; ensuring functions: %d", len(hg.pred), len(hg.ensure))
 	for _, fn := range c.ModuleFuncs() {
 		for _, b := range fn.Blocks {
 			for _, in := range b.Instrs {
@@ -243,6 +245,11 @@ func c16key(c *core.Ctx, r *core.Reporter) {
 				okKey, why := hashableKey(k, 0)
 				if !okKey && keyFromRangeOfAny(k) {
 					okKey, why = true, "key taken from a map being ranged over"
+				}
+				if !okKey {
+					if g, gw := hg.guarded(in, k); g {
+						okKey, why = true, gw
+					}
 				}
 				r.Decide(okKey, key, name, c.Pos(in.Pos()), why)
 				// equivalence of keys: the table is a Go map, whose key equality is Go's ==
